@@ -971,6 +971,47 @@ class Emitter:
         assert ty[0] == 'int', ty
         return ty[1]
 
+    def tsize_align(self, ty):
+        """(size, alignment) of an LLVM type on x86-64 (default data layout)"""
+        k = ty[0]
+        if k == 'int':
+            w = ty[1]
+            b = 1 if w <= 8 else 2 if w <= 16 else 4 if w <= 32 else 8 if w <= 64 else 16
+            return b, b
+        if k == 'double':
+            return 8, 8
+        if k == 'float':
+            return 4, 4
+        if k == 'fp80':
+            return 16, 16
+        if k == 'ptr':
+            return 8, 8
+        if k == 'named':
+            body = self.m.types.get(ty[1], ('opaque',))
+            if body[0] == 'opaque':
+                return None, 1
+            return self.tsize_align(body)
+        if k == 'array':
+            es, ea = self.tsize_align(ty[2])
+            if es is None:
+                return None, 1
+            return es * ty[1], ea
+        if k == 'struct':
+            off = 0
+            al = 1
+            for e in ty[1]:
+                es, ea = self.tsize_align(e)
+                if es is None:
+                    return None, 1
+                if ty[2]:
+                    ea = 1
+                off = (off + ea - 1) // ea * ea
+                off += es
+                al = max(al, ea)
+            off = (off + al - 1) // al * al
+            return off, al
+        return None, 1
+
     # ---- constants / values
     def gname(self, name):
         s = cid(name)
@@ -1458,6 +1499,13 @@ class Emitter:
         decl = {}
         lines = []
         self.curf = f
+        # typed allocations: CBMC gives a dynamic object the type T[n] only when the size expression carries sizeof(T);
+        # an untyped malloc(n) becomes a byte array and every struct access a byte_extract cascade (orders of magnitude slower)
+        self.alloc_ty = {}
+        for lab, ins_list in f.blocks:
+            for x in ins_list:
+                if x['op'] == 'bitcast' and x['a'][0] == 'local' and x['ty'][0] == 'ptr' and x['a'][1] not in self.alloc_ty:
+                    self.alloc_ty[x['a'][1]] = x['ty'][1]
         labels = {lab: 'L' + cid(lab) for lab, _ in f.blocks}
         # collect phis per block
         phis = {}
@@ -1769,7 +1817,7 @@ class Emitter:
                     self.use_func(name)
                     n = self.lname(x['dst'])
                     decl[n] = self.cty(rty)
-                    return '%s = (%s)malloc(%s); __CPROVER_assume(%s != 0);' % (n, self.cty(rty), arg(0), n)
+                    return '%s = (%s)malloc(%s); __CPROVER_assume(%s != 0);' % (n, self.cty(rty), self.alloc_size(x, arg(0)), n)
                 if name in ENV_DELETE:
                     self.use_func(name)
                     return 'free(%s);' % arg(0)
@@ -1784,7 +1832,7 @@ class Emitter:
                     if name == 'malloc':
                         n = self.lname(x['dst'])
                         decl[n] = self.cty(rty)
-                        return '%s = (%s)malloc(%s); __CPROVER_assume(%s != 0);' % (n, self.cty(rty), arg(0), n)
+                        return '%s = (%s)malloc(%s); __CPROVER_assume(%s != 0);' % (n, self.cty(rty), self.alloc_size(x, arg(0)), n)
                     cargs = ', '.join(arg(i) for i in range(len(args)))
                     if rty == VOID or x['dst'] is None:
                         return '%s(%s);' % (name, cargs)
@@ -1815,6 +1863,23 @@ class Emitter:
         fp = self.val(P(fty), callee)
         cargs = ', '.join(arg(i) for i in range(len(args)))
         return ret('((%s)%s)(%s)' % (self.fpty(fty), fp, cargs))
+
+    def alloc_size(self, x, size_expr):
+        """size expression of an allocation, written as sizeof(T) * count when the result is used as a T*"""
+        ety = self.alloc_ty.get(x['dst'])
+        if ety is None or ety[0] in ('void', 'func') or ety == I(8):
+            return size_expr
+        es, ea = self.tsize_align(ety)
+        if not es:
+            return size_expr
+        T = self.cty(ety)
+        sv = x['args'][0][1]
+        if sv[0] == 'int':
+            if sv[1] % es != 0:
+                return size_expr
+            return 'sizeof(%s) * %dUL' % (T, sv[1] // es)
+        # run-time size: a multiple of the element size by construction (n * sizeof(T) in the source)
+        return 'sizeof(%s) * ((uint64_t)(%s) / %dUL)' % (T, size_expr, es)
 
     def resolve_alias(self, name):
         while name in self.m.aliases:
